@@ -1,6 +1,7 @@
 import Sgz.Model.Version
 import Sgz.Model.Container
 import Sgz.Proofs.Layout
+import Sgz.Proofs.Header
 import Mathlib.Tactic.Ring
 /-!
 # C03 — container conformance: the version word, section sizes and footer offsets
@@ -137,5 +138,25 @@ theorem file_length_is_sum (nHB d len n : Nat) :
 
 example : (⟨5, 6, 300, 4, 4, 256, 64⟩ : Geo).Valid ∧ diskBlocks ⟨5, 6, 300, 4, 4, 256, 64⟩ 32 = 2 * 2 * 2 := by decide
 example : footerArrayBytes 512 = 512 ∧ footerArrayBytes 100 = 512 ∧ footerArrayBytes 513 = 1024 := by decide
+
+
+/-! ### the fixed header fields -/
+
+/-- the header states the true dimensions, axes, bit rate, blockshape, block count, array length/count, trace count and
+version: whatever a writer states through `make_header` (values `struct.pack` accepts; rate one of 1/4 … 32) is what the
+reader's parsers recover — every field, byte-exactly, including negative origins/increments read unsigned and wrapped -/
+theorem header_roundtrip (f : Header.Fields) (h : Header.Bytes) (hq : Header.validRateQ f.q = true)
+    (hm : Header.make f = some h) : Header.parse h = f := Header.parse_make f h hq hm
+
+def fOk : Header.Fields :=
+  { nHeaderBlocks := 2, nSamples := 5, nXl := 6, nIl := 7, zStart := -200, xl0 := 100, il0 := -3,
+    interval := 1001, dXl := -2, dIl := 5, q := 1, b0 := 256, b1 := 128, b2 := 4, dataBlocks := 4,
+    arrayBytes := 168, nArrays := 2, tracecount := 42, version := 4204562 }
+
+/-- non-vacuity: negative origins, a descending axis, a reciprocal rate -/
+example : (Header.make fOk).isSome = true ∧ Header.validRateQ fOk.q = true := by decide
+
+/-- a field outside its 32-bit range is refused by the writer, not stored wrapped -/
+example : Header.make { fOk with xl0 := 2147483648 } = none := by decide
 
 end Sgz.Props.C03
